@@ -81,7 +81,7 @@ def enumerate_cases(tier, scope):
             yield {'spec': refile_tree, 'emissions': emissions, 'ret': 0, 'refile': refile}
     # a spec class with its own output port class (ProcessSpec.OUTPUT_PORT_TYPE) that refuses None
     strict_tree = pm.ns({'a': pm.port(required=False), 'b': pm.port(required=True, valid_type='int'), 'sub': pm.ns({'q': pm.port(required=False)}, dynamic=True)}, dynamic=True)
-    for emissions in ([['a', None], ['b', 1]], [['b', 1], ['sub.q', None]], [['b', 1], ['sub', {'q': None}]], [['b', 1], ['a', 0]], [['b', 1], ['dyn', None]], [['b', 1], ['sub.dyn', None]], [['b', None]]):
+    for emissions in ([['a', None], ['b', 1]], [['b', 1], ['sub.q', None]], [['b', 1], ['sub', {'q': None}]], [['b', 1], ['a', 0]], [['b', 1], ['dyn', None]], [['b', 1], ['sub.dyn', None]], [['b', None]], [['b', 1], ['sub.d1.x', None]], [['b', 1], ['sub.d1.d2.x', None]], [['b', 1], ['sub.d1.d2.x', 3]], [['b', 1], ['new.deep.er', None]]):
         yield {'spec': strict_tree, 'emissions': emissions, 'ret': 0, 'strict_ports': True}
     # output namespaces declared with a nested name through create_port_namespace(): the options belong to the
     # terminal namespace, parents that did not exist take the defaults
